@@ -59,8 +59,21 @@ fn dcheck(case: &DCase) -> Outcome {
     let mut expired_reinsert = false;
     let mut after_refresh_attempt = false;
     let mut refreshed_keys: BTreeSet<u8> = BTreeSet::new();
+    let mut lookups_with_2plus_live_keys = 0usize;
+    let mut expired_probe_while_younger_live = false;
     for (step, op) in case.ops.iter().enumerate() {
         let now = now_ms();
+        // generator-distribution only: how many keys are live (inside their ttl) at this lookup
+        if let DOp::Insert(k) | DOp::Contains(k) = op {
+            let live_others = first.iter().filter(|(j, t0)| *j != k && now < **t0 + ttl).map(|(_, t0)| *t0).collect::<BTreeSet<u64>>();
+            let own_live = first.get(k).is_some_and(|t0| now < *t0 + ttl);
+            if live_others.len() + own_live as usize >= 2 {
+                lookups_with_2plus_live_keys += 1;
+            }
+            if matches!(op, DOp::Insert(_)) && first.get(k).is_some_and(|t0| now > *t0 + ttl) && !live_others.is_empty() {
+                expired_probe_while_younger_live = true;
+            }
+        }
         match op {
             DOp::Insert(k) => {
                 let got = sut.insert(key(*k));
@@ -114,6 +127,12 @@ fn dcheck(case: &DCase) -> Outcome {
     if after_refresh_attempt {
         labels.push("expired-despite-reinsertion");
     }
+    if lookups_with_2plus_live_keys >= 3 {
+        labels.push("3plus-lookups-with-2plus-live-keys");
+    }
+    if expired_probe_while_younger_live {
+        labels.push("expired-key-reinserted-while-a-younger-key-is-live");
+    }
     Outcome::pass_l(after_refresh_attempt, labels)
 }
 
@@ -122,7 +141,14 @@ fn dcheck(case: &DCase) -> Outcome {
 
 #[derive(Clone, Debug, Serialize, Deserialize)]
 pub enum MOp {
-    Put { id: u8, topic: u8 },
+    Put {
+        id: u8,
+        topic: u8,
+        /// the message is already marked validated when it is cached (what the behaviour does when
+        /// `validate_messages` is off)
+        #[serde(default)]
+        validated: bool,
+    },
     Validate { id: u8 },
     ObserveDuplicate { id: u8, peer: u8 },
     Remove { id: u8 },
@@ -142,14 +168,18 @@ const IDS: u8 = 8;
 const MTOPICS: u8 = 2;
 
 fn mstrategy() -> impl Strategy<Value = MCase> {
-    (0u8..=6).prop_flat_map(|history| (0u8..=history, Just(history))).prop_flat_map(|(gossip, history)| {
+    // history 0..6 (short histories twice as likely: ids age out and come back within one case);
+    // the case uses 1, 2, 3 or all 8 ids and 1..3 peers, so that the same (id, peer) pair recurs
+    (prop_oneof![1 => 0u8..=6, 1 => 1u8..=3], prop_oneof![Just(1u8), Just(2u8), Just(3u8), Just(IDS)], 1u8..=3)
+        .prop_flat_map(|(history, nids, npeers)| (0u8..=history, Just(history), Just(nids), Just(npeers)))
+        .prop_flat_map(|(gossip, history, nids, npeers)| {
         let op = prop_oneof![
-            5 => (0u8..IDS, 0u8..MTOPICS).prop_map(|(id, topic)| MOp::Put { id, topic }),
-            4 => (0u8..IDS).prop_map(|id| MOp::Validate { id }),
-            1 => (0u8..IDS, 0u8..3).prop_map(|(id, peer)| MOp::ObserveDuplicate { id, peer }),
-            1 => (0u8..IDS).prop_map(|id| MOp::Remove { id }),
+            5 => (0u8..nids, 0u8..MTOPICS, any::<bool>()).prop_map(|(id, topic, validated)| MOp::Put { id, topic, validated }),
+            4 => (0u8..nids).prop_map(|id| MOp::Validate { id }),
+            1 => (0u8..nids, 0u8..npeers).prop_map(|(id, peer)| MOp::ObserveDuplicate { id, peer }),
+            1 => (0u8..nids).prop_map(|id| MOp::Remove { id }),
             4 => Just(MOp::Shift),
-            5 => (0u8..IDS, 0u8..3).prop_map(|(id, peer)| MOp::Iwant { id, peer }),
+            5 => (0u8..nids, 0u8..npeers).prop_map(|(id, peer)| MOp::Iwant { id, peer }),
             3 => (0u8..MTOPICS).prop_map(|topic| MOp::Gossip { topic }),
         ];
         proptest::collection::vec(op, 1..=70).prop_map(move |ops| MCase { gossip, history, ops })
@@ -183,14 +213,22 @@ fn mcheck(case: &MCase) -> Outcome {
     let mut iwant_hits = 0usize;
     let mut expired_iwant = false;
     let mut ever_put: BTreeSet<u8> = BTreeSet::new();
+    // ids whose previous copy aged out of the history by shifts (not removed), with the peers that had
+    // been served that copy; label-only
+    let mut aged_out: BTreeMap<u8, BTreeSet<u8>> = BTreeMap::new();
+    let mut reput_after_aging_out = false;
+    let mut iwant_by_same_peer_for_both_copies = false;
 
     for (step, op) in case.ops.iter().enumerate() {
         match op {
-            MOp::Put { id, topic: t } => {
-                let raw = RawMessage { source: Some(peers[0]), data: vec![*id], sequence_number: Some(*id as u64), topic: topic(*t), signature: None, key: None, validated: false };
+            MOp::Put { id, topic: t, validated } => {
+                let raw = RawMessage { source: Some(peers[0]), data: vec![*id], sequence_number: Some(*id as u64), topic: topic(*t), signature: None, key: None, validated: *validated };
                 let got = sut.put(&mid(*id), raw);
                 let present = model.contains_key(id);
-                let fresh = Entry { age: 0, validated: false, topic: *t, iwant: BTreeMap::new() };
+                if !present && h > 0 && aged_out.contains_key(id) && !tainted.contains(id) && !removed_once.contains(id) {
+                    reput_after_aging_out = true;
+                }
+                let fresh = Entry { age: 0, validated: *validated, topic: *t, iwant: BTreeMap::new() };
                 if removed_once.contains(id) && !present {
                     tainted.insert(*id);
                     reput_after_remove = true;
@@ -241,6 +279,9 @@ fn mcheck(case: &MCase) -> Outcome {
                 for e in model.values_mut() {
                     e.age += 1;
                 }
+                for (id, e) in model.iter().filter(|(_, e)| e.age >= h) {
+                    aged_out.entry(*id).or_default().extend(e.iwant.keys().copied());
+                }
                 model.retain(|_, e| e.age < h);
             }
             MOp::Iwant { id, peer } => {
@@ -263,6 +304,9 @@ fn mcheck(case: &MCase) -> Outcome {
                 }
                 if let (Some((raw, count)), Some(e)) = (got, model.get_mut(id)) {
                     ensure!(raw.data == vec![*id], "C33:iwant-returned-other-message", json!({"step": step, "id": id}));
+                    if !is_tainted && aged_out.get(id).is_some_and(|ps| ps.contains(&(*peer % 3))) {
+                        iwant_by_same_peer_for_both_copies = true;
+                    }
                     let c = e.iwant.entry(*peer % 3).or_insert(0);
                     *c += 1;
                     if !is_tainted {
@@ -313,6 +357,12 @@ fn mcheck(case: &MCase) -> Outcome {
     if h == 0 {
         labels.push("history=0");
     }
+    if reput_after_aging_out {
+        labels.push("reput-of-id-that-aged-out-of-the-history");
+    }
+    if iwant_by_same_peer_for_both_copies {
+        labels.push("iwant-by-same-peer-for-old-and-new-copy-of-an-id");
+    }
     Outcome::pass_l(shift_after_validated_put && (gossip_nonempty || iwant_hits > 0), labels)
 }
 
@@ -328,7 +378,7 @@ pub fn run(ctx: &mut Ctx) {
     );
     ctx.check::<MCase>(
         "mcache",
-        "<=70 ops put/validate/observe_duplicate/remove/shift/get_with_iwant_counts/get_gossip_message_ids over 8 ids, 2 topics, 3 peers, gossip <= history <= 6; model = age in shifts; non-trivial = a shift after put+validate and a non-empty gossip or served IWANT",
+        "<=70 ops put (unvalidated or already validated)/validate/observe_duplicate/remove/shift/get_with_iwant_counts/get_gossip_message_ids over 1, 2, 3 or 8 ids, 2 topics, 1..3 peers, gossip <= history <= 6 (short histories favoured so that ids age out and are cached again); model = age in shifts; non-trivial = a shift after put+validate and a non-empty gossip or served IWANT",
         ctx.n(100_000, 2_500_000),
         &|| mstrategy().boxed(),
         &mcheck,
